@@ -155,6 +155,12 @@ def main():
                     getattr(client, meth)(request=M(**{attr: 'v'}))
                     hp = header()
                     o['wire_seen'] = w if (w, 'v') in hp else f'?header={hp}'
+                elif position == 'routing_template':
+                    fs = fields_of(M)
+                    o['surface_seen'] = attr if attr in fs else (w if w in fs else '')
+                    getattr(client, meth)(request=M(**{attr: 'items/x'}))
+                    hp = header()
+                    o['wire_seen'] = w if hp == [(w, 'items/x')] else f'?header={hp}'
                 elif position == 'rpc_name':
                     names = [n for n in dir(client) if not n.startswith('__')]
                     o['surface_seen'] = attr if attr in names else (w if w in names else '')
@@ -234,6 +240,9 @@ def main():
                     elif position == 'routing_field':
                         await getattr(aclient, meth)(request=M(**{attr: 'v'}))
                         seen = (w, 'v') in header()
+                    elif position == 'routing_template':
+                        await getattr(aclient, meth)(request=M(**{attr: 'items/x'}))
+                        seen = header() == [(w, 'items/x')]
                     elif position == 'rpc_name':
                         if not hasattr(aclient, attr):
                             o['problems'].append(f'asyncio client lacks method {attr}')
